@@ -1,5 +1,5 @@
 \* exhaustive, deeper on a narrow universe: the repaired design satisfies the contract
-\* (2 tenants, 1 task, collection 1 + wildcard 0, 1 channel, faults, depth 4)
+\* (2 tenants, 1 task, collection 1 + reserved id -10 + wildcard 0, 1 channel, faults, depth 4)
 SPECIFICATION Spec
 CHECK_DEADLOCK FALSE
 VIEW view
@@ -10,13 +10,15 @@ CONSTANTS
   Colls = {1}
   Chans = {"ch"}
   MsgIds = {"m"}
+  Reserved = {"rpc"}
+  PosKeyPositive = FALSE
   ZeroColl = TRUE
   Backend = "mysql"
   DelNoRoot = FALSE
   LikeRaw = FALSE
   MsgAllRaw = FALSE
   EtcdMsgShared = FALSE
-  OpsOn = {"putTask", "putPos", "getTask", "getAll", "getPos", "setState", "updPos", "dropPos", "delPos", "delTask", "msgPut", "msgAll", "msgGet", "msgDel"}
+  OpsOn = {"putTask", "putPos", "getTask", "getAll", "getPos", "getPosC", "setState", "updPos", "dropPos", "delPos", "delTask", "msgPut", "msgAll", "msgGet", "msgDel"}
   FaultsOn = TRUE
   Rand = FALSE
   SeedOps = 0
